@@ -237,8 +237,8 @@ def readNumber (s : State) (ch : UInt8) : TType × Option Bytes × State :=
     let hasDigits := hasDigits || decide (p1 > s.pos)
     -- Fractional part
     if peekAt inp p1 == #b'.' && dotSeen then
-      -- Stop if we see another dot
-      (t, slice? inp pos (p1 - 1), { s with pos := p1 })
+      -- Stop if we see another dot (fix: the literal runs up to the dot, was `l.pos-1`)
+      (t, slice? inp pos p1, { s with pos := p1 })
     else
       let frac := peekAt inp p1 == #b'.'
       let t := if frac then FLOAT else t
@@ -255,8 +255,8 @@ def readNumber (s : State) (ch : UInt8) : TType × Option Bytes × State :=
           let peek := peekAt inp p3
           let p4 := if peek == #b'+' || peek == #b'-' then p3 + 1 else p3
           if !isDigit (peekAt inp p4) then
-            -- Invalid exponent, stop here
-            (t, slice? inp pos errPos, { s with pos := p4 })
+            -- Invalid exponent, stop here (fix: the position is reset to errPos)
+            (t, slice? inp pos errPos, { s with pos := errPos })
           else
             let p5 := scanWhile isDigitOrUnderscore inp p4
             (FLOAT, slice? inp pos p5, { s with pos := p5 })
@@ -300,9 +300,11 @@ def next (s0 : State) : Tok × State :=
     else (constantTokenChar ch, s)
   else if ch == #b'"' || ch == #b'`' then
     let (str, ok, s) := readString s ch
-    if !ok then (s.eolEof, s) else (internTok STRING str, s)
+    -- fix: `l.pos--`, stay on the terminating NUL / end of input
+    if !ok then (s.eolEof, { s with pos := s.pos - 1 }) else (internTok STRING str, s)
   else if ch == 0 then
-    (s.eolEof, s)
+    -- fix: `l.pos--`, the end marker is not consumed
+    (s.eolEof, { s with pos := s.pos - 1 })
   else if ch == #b'.' then
     if nextChar == #b'.' then (constantTokenChar2 ch nextChar, adv)
     else if !isDigit nextChar then (constantTokenChar ch, s)
